@@ -24,10 +24,10 @@ func init() {
 		Assumptions: []string{"unsupported alternatives (|, in, contains, ~) make all renderings fail alike: consistent, not a violation here",
 			"a string or unit word is never appended after a source ending in a NUMBER (that would form a quantity literal)"},
 		Run:    runC11,
-		Checks: map[string]func(*core.Env, []json.RawMessage){"tree": replayC11, "pure": replayC11Pure},
+		Checks: map[string]func(*core.Env, []json.RawMessage){"tree": replayC11, "pure": replayC11Pure, "word": replayC11Word},
 		Threshold: func(m *core.Merged) []string {
 			var r []string
-			for _, k := range []string{"tree", "compiled", "rejected-consistently", "decorated", "trailing-token", "pure-tree", "min-differs-from-full", "string-method"} {
+			for _, k := range []string{"tree", "compiled", "rejected-consistently", "decorated", "trailing-token", "pure-tree", "min-differs-from-full", "string-method", "keyword-member", "compiled-without-options"} {
 				if m.Cover[k] == 0 {
 					r = append(r, "never observed: "+k)
 				}
@@ -195,7 +195,12 @@ func c11Trailing(env *core.Env, src string, co []fhirpath.CompileOption) {
 	if !(last >= '0' && last <= '9') {
 		extra = append(extra, " 'x'", " year", " Patient")
 	}
+	// a source that ends in a name becomes a function invocation when "(1)" follows: that is a continuation
+	endsInName := (last >= 'a' && last <= 'z') || (last >= 'A' && last <= 'Z') || last == '_' || last == '`'
 	for _, t := range extra {
+		if endsInName && (t == " (1)" || t == ")(") {
+			continue
+		}
 		env.Cover("trailing-token")
 		ex, cr := fx.Compile(env, src+t, co...)
 		if cr.IsPanic() {
@@ -383,6 +388,48 @@ func c11Pure(env *core.Env, seed uint64, kind string, depth int) {
 	c11Check(env, tree, seed, "pure-"+kind)
 }
 
+// c11Words: reserved words, calendar-unit keywords and the four keywords that are also identifiers, used as
+// member names, roots, function names and operands: however the token is classified, every rendering of the
+// tree must be classified the same way.
+var c11Words = []string{"day", "days", "year", "years", "month", "months", "week", "weeks", "hour", "hours", "minute", "minutes", "second", "seconds", "millisecond", "milliseconds",
+	"div", "mod", "and", "or", "xor", "implies", "is", "as", "in", "contains", "true", "false", "$this", "$index", "$total", "where", "exists", "Patient", "name", "`day`", "`div`", "`given`"}
+
+func c11Word(env *core.Env, word string, shape int) {
+	defer env.In("word", word, shape)()
+	w := &gen.Expr{K: "ident", Text: word}
+	pat := &gen.Expr{K: "ident", Text: "Patient"}
+	member := func(recv *gen.Expr, name string) *gen.Expr { return &gen.Expr{K: "member", Text: name, Kids: []*gen.Expr{recv}} }
+	var tree *gen.Expr
+	switch shape {
+	case 0:
+		tree = member(pat, word) // Patient.<word>
+	case 1:
+		tree = member(member(pat, "name"), word) // Patient.name.<word>
+	case 2:
+		tree = member(member(pat, word), "given") // Patient.<word>.given
+	case 3:
+		tree = w // <word>
+	case 4:
+		tree = &gen.Expr{K: "bin", Text: "=", Kids: []*gen.Expr{member(pat, word), {K: "lit", Text: "1"}}} // Patient.<word> = 1
+	case 5:
+		tree = &gen.Expr{K: "func", Text: "exists", Recv: true, Kids: []*gen.Expr{member(pat, "name"), member(&gen.Expr{K: "this", Text: "$this"}, word)}} // Patient.name.exists($this.<word>)
+	case 6:
+		tree = &gen.Expr{K: "bin", Text: "and", Kids: []*gen.Expr{member(pat, word), member(pat, "active")}}
+	default:
+		tree = &gen.Expr{K: "index", Kids: []*gen.Expr{member(member(pat, "name"), word), {K: "lit", Text: "0"}}}
+	}
+	env.Cover("keyword-member")
+	c11Check(env, tree, uint64(shape)*131+uint64(len(word)), "word")
+}
+
+func replayC11Word(env *core.Env, a []json.RawMessage) {
+	var w string
+	var sh int
+	json.Unmarshal(a[0], &w)
+	json.Unmarshal(a[1], &sh)
+	c11Word(env, w, sh)
+}
+
 func replayC11Pure(env *core.Env, a []json.RawMessage) {
 	var seed uint64
 	var kind string
@@ -405,6 +452,15 @@ func runC11(env *core.Env) {
 			continue
 		}
 		c11Tree(env, seed, cat, depth)
+	}
+	k := 0
+	for _, w := range c11Words {
+		for shape := 0; shape < 8; shape++ {
+			k++
+			if env.Mine(k) {
+				c11Word(env, w, shape)
+			}
+		}
 	}
 	totalPure := env.Size(1500, 100000)
 	for i := 0; i < totalPure; i++ {
